@@ -69,7 +69,7 @@ def floors(tier):
     return {'evaluations': 20000, 'distinct_nontrivial': 3000, 'splits_checked': 50000, 'keyval_checked': 8000,
             'histkeys:sep': 6, 'hist:policy:first': 500, 'hist:policy:concatenate': 500, 'hist:policy:error': 500,
             'hist:policy:last': 500, 'repeated_keys_seen': 1000, 'keyval_second_call_on_same_list': 5000,
-            'keyval_default_values_used': 5000, 'keyval_callable_policy_calls': 1000, 'hist:keyval_default:list': 2000,
+            'keyval_default_values_used': 5000, 'all_arguments_info_checked': 1000, 'content_as_chars_checked': 500, 'keyval_callable_policy_calls': 1000, 'hist:keyval_default:list': 2000,
             'lists_with_none_entries': 2000, 'argument_info_checked': 4000,
             'double_group_same_delimiters': 200, 'double_group_other_delimiters': 200}
 
@@ -415,6 +415,21 @@ def check_arginfo(case, rec):
         if canon.kind(n) != 'macro' or n.macroname != 'opts' or n.nodeargd is None:
             continue
         info = ParsedArgumentsInfo(node=n)
+        # the bulk accessor hands out the same argument nodes under the documented keys
+        rec.monitor('all_arguments_info_checked')
+        for req, wantkeys in ((None, [0, 1, 'main', 'options']), (['options'], ['options']), ([1], [1]),
+                              (['main', 0], [0, 'main'])):
+            try:
+                allinfo = info.get_all_arguments_info(req, allow_additional_arguments=True)
+            except Exception as e:
+                return 'get_all_arguments_info(%r) raised %s: %s' % (req, type(e).__name__, e)
+            if sorted(allinfo.keys(), key=str) != wantkeys:
+                return 'get_all_arguments_info(%r) has keys %r, documented %r' % (req, sorted(allinfo.keys(), key=str), wantkeys)
+            for kk, ai in allinfo.items():
+                j = {'options': 0, 'main': 1}.get(kk, kk)
+                if ai.argument_node_object is not n.nodeargd.argnlist[j]:
+                    return 'get_all_arguments_info(%r)[%r] holds %s, the argument is %s' % (
+                        req, kk, canon.short(ai.argument_node_object), canon.short(n.nodeargd.argnlist[j]))
         for k, key in ((0, 'options'), (1, 'main')):
             rec.monitor('argument_info_checked')
             a = n.nodeargd.argnlist[k]
@@ -443,6 +458,36 @@ def check_arginfo(case, rec):
             ai = info.get_argument_info(k)
             if a is not None:
                 content = ai.get_content_nodelist()
+                # character content: concatenated character nodes, comments ignored, anything else refused
+                def flat(nodes):
+                    # characters, comments, and group nodes containing such nodes (LatexNodeList.get_content_as_chars)
+                    out = ''
+                    for c in nodes:
+                        if c is None or c.isNodeType(N.LatexCommentNode):
+                            continue
+                        if c.isNodeType(N.LatexCharsNode):
+                            out += c.chars
+                        elif c.isNodeType(N.LatexGroupNode):
+                            sub = flat(c.nodelist)
+                            if sub is None:
+                                return None
+                            out += sub
+                        else:
+                            return None
+                    return out
+                wantc = flat(content)
+                simple = wantc is not None
+                try:
+                    chars = ai.get_content_as_chars()
+                    if not simple:
+                        return 'get_content_as_chars() returns %r for content %s with non-character nodes' % (
+                            chars, canon.short(content))
+                    rec.monitor('content_as_chars_checked')
+                    if chars != wantc:
+                        return 'get_content_as_chars() gives %r, the character nodes (incl. inside groups) hold %r' % (chars, wantc)
+                except LatexWalkerParseError:
+                    if simple:
+                        return 'get_content_as_chars() refuses character-only content %s' % canon.short(content)
                 # key-value parsing through the argument info == key-value parsing of that content
                 try:
                     kv1 = ai.parse_content_as_keyval()
